@@ -92,12 +92,18 @@ func genLong(t *rapid.T) (*Case, string) {
 	case "between":
 		total = rapid.IntRange(pow16, (maxMult+1)*pow16).Draw(t, "len")
 	}
-	// cyclic Log pattern: 1..40 calls over the 12 (owner,type) combinations
+	// cyclic Log pattern: 1..40 calls over the 12 (owner,type) combinations with
+	// an owner and a type, or (two times in three) over all 20 including Log
+	// calls with a nil owner / type 0
+	pick, top := comboOrd, 11
+	if rapid.IntRange(0, 2).Draw(t, "alphabet") > 0 {
+		pick, top = combo, nCombos-1
+	}
 	plen := rapid.OneOf(rapid.IntRange(1, 5), rapid.IntRange(1, 40)).Draw(t, "patlen")
-	pv := rapid.SliceOfN(rapid.IntRange(0, 11), plen, plen).Draw(t, "pattern")
+	pv := rapid.SliceOfN(rapid.IntRange(0, top), plen, plen).Draw(t, "pattern")
 	pat := make([]ent, plen)
 	for i, x := range pv {
-		pat[i] = ent{1 + x/4, logTypes[x%4]}
+		pat[i] = pick(x)
 	}
 	sel := func() []FP {
 		k := rapid.IntRange(1, 2).Draw(t, "nsel")
@@ -191,8 +197,9 @@ func TestPropLong(t *testing.T) {
 }
 
 // TestEnumLong: fixed long histories. For every capacity of the list (quick:
-// 3, 5, 7, 48, 100, 1000; thorough: 30 capacities, sharded) the period-12
-// pattern of the sweep is logged 2 x 2^16 + 2N + 3 times (thorough 4 x 2^16 +
+// 3, 5, 7, 48, 100, 1000; thorough: 30 capacities, sharded) the period-20
+// pattern "wild" of the sweep (every fourth entry logged with a nil owner, every
+// fifth with type 0) is logged 2 x 2^16 + 2N + 3 times (thorough 4 x 2^16 +
 // 2N + 3) with a checkpoint
 //   - at every total m-2 .. m+min(N,64)+2 and at m+N/2, m+N-1, m+N, m+N+1, m+2N
 //     for every multiple m of 2^16,
@@ -206,9 +213,11 @@ func TestEnumLong(t *testing.T) {
 		caps = append(caps, 1, 2, 6, 9, 10, 12, 15, 17, 24, 31, 33, 63, 64, 65, 127, 129, 255, 257, 500, 1023, 1024, 1025, 1500, 4097)
 		mult = 4
 	}
-	pat := make([]ent, 12)
+	// owner period 4 (nil, A, B, C), type period 5 (0, 1, 2, 4, 8): all 20
+	// combinations, the pattern "wild" of the sweep
+	pat := make([]ent, nCombos)
 	for i := range pat {
-		pat[i] = ent{1 + i%3, logTypes[i%4]}
+		pat[i] = ent{i % 4, logTypes0[i%5]}
 	}
 	sel := []FP{{1, 0}, {0, 2}, {2, 4}}
 	for ci := hx.Shard; ci < len(caps); ci += hx.NShards {
@@ -238,7 +247,7 @@ func TestEnumLong(t *testing.T) {
 			}
 		}
 		fl = sortCheckpoints(fl, total)
-		c := &Case{Kind: "long", N: n, Logs: encodeLogs(pat), Total: total, Filters: fl, Desc: "cycle"}
+		c := &Case{Kind: "long", N: n, Logs: encodeLogs(pat), Total: total, Filters: fl, Desc: "wild"}
 		o := runLongCase(t, "longenum", c)
 		if o.err != nil {
 			hx.Violation("longenum", c, o.err.Error())
@@ -249,5 +258,5 @@ func TestEnumLong(t *testing.T) {
 			return
 		}
 	}
-	hx.Exhaustive(fmt.Sprintf("long histories: %d capacities x one history of %d x 2^16 + 2N + 3 entries (period-12 pattern), checkpoints at every total from m-2 to m+min(N,64)+2 and at m+N/2, m+N-1, m+N, m+N+1, m+2N for every multiple m of 2^16, and around every multiple of 2^15 / 2^12 / (up to 2^13) 2^8: Filter(nil,0) unsettled and settled, Filter(A,0), Filter(nil,2), Filter(B,4)", len(caps), mult))
+	hx.Exhaustive(fmt.Sprintf("long histories: %d capacities x one history of %d x 2^16 + 2N + 3 entries (period-20 pattern over owners nil, A, B, C and types 0, 1, 2, 4, 8), checkpoints at every total from m-2 to m+min(N,64)+2 and at m+N/2, m+N-1, m+N, m+N+1, m+2N for every multiple m of 2^16, and around every multiple of 2^15 / 2^12 / (up to 2^13) 2^8: Filter(nil,0) unsettled and settled, Filter(A,0), Filter(nil,2), Filter(B,4)", len(caps), mult))
 }
